@@ -118,4 +118,30 @@ def checkShardProof (blockInfoOk : PCell → Bool) (findShard : PCell → Bool) 
     | _, _ => false
   | _ => false
 
+/-! ### the two Boolean parameters of `checkShardProof`, read from the source (`check_shard_proof`; the TL-B deserialisers stay
+parameters: `deserBlock c` = `Block.deserialize(c.begin_parse()).info`, `deserShard c` = `ShardStateUnsplit.deserialize(c.begin_parse())`,
+`shardHashes s` = `s.custom.shard_hashes` (`none` = raises), `shardGet d wc` = `d.get(wc)`, `descrList` = `.list` (an element is `None`
+for a pruned leaf), `entryRootHash` = `.root_hash`) -/
+
+/-- `block_info.seqno == blk.seqno and block_info.shard.workchain_id == blk.workchain` on the deserialised header -/
+def shardBlockInfoOk {BlockInfo : Type} (deserBlock : PCell → Option BlockInfo) (infoSeqno infoWorkchain : BlockInfo → Int)
+    (seqno workchain : Int) (hdr : PCell) : Bool :=
+  match deserBlock hdr with
+  | some i => infoSeqno i == seqno && infoWorkchain i == workchain
+  | none => false
+
+/-- `s is not None and s.root_hash == shrd_blk.root_hash` on one leaf of the BinTree (`None` = a pruned leaf) -/
+def entryMatches {ShardEntry : Type} (entryRootHash : ShardEntry → Bytes) (rootHash : Bytes) : Option ShardEntry → Bool
+  | some e => entryRootHash e == rootHash
+  | none => false
+
+/-- the tail of `check_shard_proof`: deserialise the masterchain state cell, take `custom.shard_hashes.get(shrd_blk.workchain)` and return
+that descriptor iff one of its (unpruned) leaves carries `shrd_blk.root_hash`; `none` = raises -/
+def findShardDescr {Shard ShardDict ShardDescr ShardEntry : Type} (deserShard : PCell → Option Shard)
+    (shardHashes : Shard → Option ShardDict) (shardGet : ShardDict → Int → Option ShardDescr)
+    (descrList : ShardDescr → List (Option ShardEntry)) (entryRootHash : ShardEntry → Bytes)
+    (workchain : Int) (rootHash : Bytes) (st : PCell) : Option ShardDescr :=
+  (deserShard st).bind fun sh => (shardHashes sh).bind fun d => (shardGet d workchain).bind fun descr =>
+    if (descrList descr).any (entryMatches entryRootHash rootHash) then some descr else none
+
 end TonVerif.Model
